@@ -563,3 +563,38 @@ Print Assumptions polar_matrix_one_accepted_attempt_per_entry.
 Example polar_matrix_one_accepted_attempt_per_entry_nonvacuous :
   exists l rest, polar_fill 6 8 2 [7; 7; 3; 5; 4; 5; 1]%Z = Ok (l, rest) /\ rest = [1%Z].
 Proof. eexists. eexists. split; vm_compute; reflexivity. Qed.
+
+(* ---- one pair update approaches its target monotonically (0 <= lambda <= 1) ---------------------------- *)
+Theorem pair_update_no_overshoot : forall lam tol r d : Q,
+  (0 <= d)%Q -> (0 < tol)%Q -> (0 <= r)%Q -> (0 <= lam)%Q -> (lam <= 1)%Q ->
+  let d' := (d * (1 + lam * (r - d - tol) / (d + tol)))%Q in
+  ((d + tol <= r)%Q -> (d <= d')%Q /\ (d' <= r)%Q) /\
+  ((r <= d + tol)%Q -> (r * d / (d + tol) <= d')%Q /\ (d' <= d)%Q).
+Proof. exact pair_update_no_overshoot_proof. Qed.
+Print Assumptions pair_update_no_overshoot.
+
+Example pair_update_no_overshoot_nonvacuous :
+  (0 <= 1)%Q /\ (0 < 1 # 100)%Q /\ (0 <= 2)%Q /\ (0 <= 1 # 2)%Q /\ (1 # 2 <= 1)%Q /\ (1 + (1 # 100) <= 2)%Q.
+Proof. repeat split; discriminate. Qed.
+
+(* regression theorem (mutant m03: lambda instead of lambda/2 = the law above with lambda = 2): overshoot *)
+Theorem pair_update_full_step_overshoots :
+  exists lam tol r d : Q,
+    (0 <= d)%Q /\ (0 < tol)%Q /\ (d + tol <= r)%Q /\ (lam == 2)%Q /\
+    (r < d * (1 + lam * (r - d - tol) / (d + tol)))%Q.
+Proof. exact pair_update_full_step_overshoots_proof. Qed.
+Print Assumptions pair_update_full_step_overshoots.
+
+(* ---- the shipped uniform_random(): std::rand() / (RAND_MAX + 1.0) lies in [0, 1) ------------------------- *)
+Theorem uniform_random_in_unit_interval : forall (M : positive) (r : Z),
+  (0 <= r < Z.pos M)%Z -> (0 <= uniform_of_rand M r)%Q /\ (uniform_of_rand M r < 1)%Q.
+Proof. exact uniform_of_rand_unit_proof. Qed.
+Print Assumptions uniform_random_in_unit_interval.
+
+Theorem uniform_random_draw_in_range : forall (M : positive) (r : Z) (k : nat),
+  0 < k -> (0 <= r < Z.pos M)%Z -> (0 <= draw k (uniform_of_rand M r) < Z.of_nat k)%Z.
+Proof. exact uniform_draw_in_range_proof. Qed.
+Print Assumptions uniform_random_draw_in_range.
+
+Example uniform_random_nonvacuous : 0 < 3 /\ (0 <= 2147483647 < Z.pos 2147483648)%Z.
+Proof. split; [lia|split; [lia|reflexivity]]. Qed.
